@@ -54,7 +54,9 @@ class Rnd:
         return self._take("random", lambda: self.random_options[0] if self.explore else self.r.random())
 
     def uniform(self, a, b):
-        return self._take("uniform", lambda: self.r.uniform(a, b))
+        opts = [a + (b - a) * x for x in self.random_options]
+        self.draws_seen.append(("uniform", opts))
+        return self._take("uniform", lambda: opts[0] if self.explore else self.r.uniform(a, b))
 
     def randint(self, a, b):
         return self._take("randint", lambda: self.r.randint(a, b))
